@@ -480,6 +480,9 @@ const QUIET_YIELDS: usize = 2;
 pub struct QuietToken {
     polls: u64,
     busy: u64,
+    /// bytes of an incomplete frame in the client's buffer (a broker that stops in the middle
+    /// of a frame is as quiet as one that stops between frames)
+    half_read: usize,
 }
 
 #[derive(Clone, Copy, PartialEq, Eq, Debug)]
@@ -531,10 +534,12 @@ impl Stack {
         if polls != polls0 {
             return Ok(Probe::Activity);
         }
-        // (c) nothing readable, nothing half read
-        if c.fill_now().await || !c.rbuf.is_empty() {
+        // (c) nothing readable; what is buffered is an incomplete frame (`try_next` hands out
+        // every complete one first) whose length must not change between two observations
+        if c.fill_now().await {
             return Ok(Probe::Activity);
         }
+        let half_read = c.rbuf.len();
         // (a) the router is idle and stays idle while nothing else can run
         let busy = self.router.busy.load(Ordering::SeqCst);
         let streak0 = self.router.idle_streak.load(Ordering::SeqCst);
@@ -559,7 +564,7 @@ impl Stack {
             if streak == streak0 && self.router.blocked_in_turn() {
                 stuck += 1;
                 if stuck >= STUCK_LOOKS {
-                    return Ok(Probe::Stuck(QuietToken { polls, busy }));
+                    return Ok(Probe::Stuck(QuietToken { polls, busy, half_read }));
                 }
             } else {
                 stuck = 0;
@@ -578,7 +583,7 @@ impl Stack {
         if self.pending_events() != 0 {
             return Ok(Probe::Activity);
         }
-        Ok(Probe::Quiet(QuietToken { polls, busy }))
+        Ok(Probe::Quiet(QuietToken { polls, busy, half_read }))
     }
 
     /// The next frame on `c`, or the verdict that none will come: waits without a wall clock
